@@ -123,6 +123,14 @@ fn_names_that_contradict_ordered_windowed_situation = {
     "sum",
     "std",
     "var",
+    # the other whole-partition aggregates: with ORDER BY in the OVER clause SQL computes a running value, Pandas the group value
+    "mean",
+    "median",
+    "size",
+    "_size",
+    "nunique",
+    "any",
+    "all",
 }
 
 
